@@ -134,11 +134,14 @@ static void pred_cpca(const Case &c) {
 
 // ------------------------------------------------------------------------------------------------
 static void gen_kmeans(Draw &d, Case &c) {
-  int n = (int)d.i(2, 12), p = (int)d.i(1, 3), distinct = (int)d.i(1, 3), k = (int)d.i(1, std::min(n, 5)), init = (int)d.i(0, 3), th = (int)d.i(1, 3), seed = (int)d.i(1, 1000);
+  int n = (int)d.i(2, 12), p = (int)d.i(1, 3), distinct = (int)d.i(1, 3), init = (int)d.i(0, 3), th = (int)d.i(1, 3), seed = (int)d.i(1, 1000);
+  // more clusters than objects is a degenerate request of the k-means++ seeding (initializer 1) that must still return; the other
+  // selection methods index the data by the requested count and are only asked for k <= n
+  int k = (int)d.i(1, init == 1 ? std::min(n + 2, 8) : std::min(n, 5));
   auto base = d.ivec((size_t)distinct * p, -5, 5); auto pick = d.ivec(n, 0, distinct - 1);
   c.p = {n, p, k, init, th, seed};
   for (int i = 0; i < n; i++) for (int j = 0; j < p; j++) c.v.push_back((double)base[(size_t)pick[i] * p + j]);
-  c.nontrivial = distinct < k; c.tags.push_back(fmt("initializer=%d", init)); if (distinct < k) c.tags.push_back("fewer-distinct-points-than-clusters");
+  c.nontrivial = distinct < k; c.tags.push_back(fmt("initializer=%d", init)); if (distinct < k) c.tags.push_back("fewer-distinct-points-than-clusters"); if (k > n) c.tags.push_back("more-clusters-than-objects");
 }
 static void pred_kmeans(const Case &c) {
   Reader rd(c); int n = (int)rd.i(), p = (int)rd.i(), k = (int)rd.i(), init = (int)rd.i(), th = (int)rd.i(), seed = (int)rd.i();
